@@ -262,12 +262,12 @@ func TestC08(t *testing.T) {
 type C08BCase struct {
 	Conns int `json:"conns"`
 	Ops   int `json:"ops"`  // per connection
-	Kind  int `json:"kind"` // 0 counters 1 list conservation 2 MSET/MGET all-equal 3 RENAME ping-pong 4 SMOVE conservation 5 LMOVE rotation
+	Kind  int `json:"kind"` // 0 counters 1 list conservation 2 MSET/MGET all-equal 3 RENAME ping-pong 4 SMOVE conservation 5 LMOVE rotation 6 MSETNX / SETNX / RENAMENX / COPY winner-takes-all rounds
 	Pad   int `json:"pad"`
 }
 
 func c08BGen(t *rapid.T) C08BCase {
-	return C08BCase{Conns: rapid.IntRange(4, 16).Draw(t, "conns"), Ops: rapid.IntRange(100, 600).Draw(t, "ops"), Kind: rapid.IntRange(0, 5).Draw(t, "kind"), Pad: pick(t, "pad", 0, 16, 1024)}
+	return C08BCase{Conns: rapid.IntRange(4, 16).Draw(t, "conns"), Ops: rapid.IntRange(100, 600).Draw(t, "ops"), Kind: rapid.IntRange(0, 6).Draw(t, "kind"), Pad: pick(t, "pad", 0, 16, 1024)}
 }
 
 func c08BRun(c C08BCase, st *kit.Stats) error {
@@ -284,6 +284,9 @@ func c08BRun(c C08BCase, st *kit.Stats) error {
 		admin.Do("SADD", "sa", "m0", "m1", "m2", "m3", "m4", "m5", "m6", "m7")
 	case 5:
 		admin.Do("RPUSH", "ring", "r0", "r1", "r2", "r3", "r4")
+	}
+	if c.Kind == 6 {
+		return c08Rounds(c, emu, st)
 	}
 	var wg sync.WaitGroup
 	errs := make(chan error, c.Conns)
@@ -459,6 +462,95 @@ func c08BRun(c C08BCase, st *kit.Stats) error {
 			return fmt.Errorf("rotation lost or duplicated elements: ring holds %v", l)
 		}
 	}
+	st.NonTrivial(fmt.Sprintf("%+v", c), c)
+	return nil
+}
+
+// c08Rounds: in every round all connections race for the same fresh keys with a conditional
+// multi-key write; exactly one may win, and what is stored must be entirely the winner's.
+func c08Rounds(c C08BCase, emu *kit.Emu, st *kit.Stats) error {
+	rounds := c.Ops / 4
+	if rounds > 120 {
+		rounds = 120
+	}
+	conns := make([]*kit.Conn, c.Conns)
+	for i := range conns {
+		conns[i] = emu.Dial()
+		conns[i].Do("PING")
+	}
+	admin := emu.Dial()
+	pad := strings.Repeat("p", c.Pad)
+	for r := 0; r < rounds; r++ {
+		mode := r % 4
+		keys := []string{fmt.Sprintf("r%d_0", r), fmt.Sprintf("r%d_1", r), fmt.Sprintf("r%d_2", r), fmt.Sprintf("r%d_3", r)}
+		if mode == 2 || mode == 3 {
+			for i := range conns {
+				admin.Do("SET", fmt.Sprintf("src%d_%d", r, i), fmt.Sprintf("c%d%s", i, pad))
+			}
+		}
+		replies := make([]kit.Value, len(conns))
+		errs := make([]error, len(conns))
+		var wg sync.WaitGroup
+		start := make(chan struct{})
+		for i := range conns {
+			wg.Add(1)
+			go func(i int) {
+				defer wg.Done()
+				val := fmt.Sprintf("c%d%s", i, pad)
+				var argv []string
+				switch mode {
+				case 0:
+					argv = []string{"MSETNX"}
+					// different key orders, so that the checks of two commands interleave
+					for j := range keys {
+						k := keys[(j+i)%len(keys)]
+						if i%2 == 1 {
+							k = keys[(len(keys)-1-j+i)%len(keys)]
+						}
+						argv = append(argv, k, val)
+					}
+				case 1:
+					argv = []string{"SETNX", keys[0], val}
+				case 2:
+					argv = []string{"RENAMENX", fmt.Sprintf("src%d_%d", r, i), keys[0]}
+				default:
+					argv = []string{"COPY", fmt.Sprintf("src%d_%d", r, i), keys[0]}
+				}
+				<-start
+				replies[i], errs[i] = conns[i].Do(argv...)
+			}(i)
+		}
+		close(start)
+		wg.Wait()
+		winners := []int{}
+		for i := range conns {
+			if errs[i] != nil {
+				return fmt.Errorf("round %d: %v", r, errs[i])
+			}
+			if kit.Equal(replies[i], kit.Int(1)) {
+				winners = append(winners, i)
+			} else if !kit.Equal(replies[i], kit.Int(0)) {
+				return fmt.Errorf("round %d: reply %s", r, replies[i])
+			}
+		}
+		name := []string{"MSETNX", "SETNX", "RENAMENX", "COPY"}[mode]
+		if len(winners) != 1 {
+			return fmt.Errorf("round %d: %d connections raced with %s for the same missing key(s) and %d of them were told they had set them (connections %v): exactly one conditional write can succeed", r, len(conns), name, len(winners), winners)
+		}
+		want := fmt.Sprintf("c%d%s", winners[0], pad)
+		n := 1
+		if mode == 0 {
+			n = len(keys)
+		}
+		for _, k := range keys[:n] {
+			v, _ := admin.Do("GET", k)
+			if v.S != want {
+				return fmt.Errorf("round %d: connection %d won the %s, but key %s holds the value of another connection (%s)", r, winners[0], name, k, clip(v.S))
+			}
+		}
+	}
+	st.ClassN("concurrent-commands", rounds*c.Conns)
+	st.Class("kind:6")
 	st.NonTrivial(fmt.Sprintf("%+v", c), c)
 	return nil
 }
